@@ -15,6 +15,10 @@ impl<'a> Choices<'a> {
     pub fn consumed(&self) -> usize {
         self.pos
     }
+    /// a second reader at the same position of the same bytes
+    pub fn fork(&self) -> Choices<'a> {
+        Choices { data: self.data, pos: self.pos }
+    }
     pub fn exhausted(&self) -> bool {
         self.pos >= self.data.len()
     }
